@@ -257,18 +257,21 @@ def run_property(chk, pid):
             recs.append(dict(m=dict(ins=[x[:5] for x in mm["ins"]], tries=mm["tries"], endoff=mm["endoff"]), B=got[i],
                              aligned=(k + i) < n_aligned, src="model" if (k + i) < n_s2c else "random"))
     # ---- methods of shipped files
-    files = sorted(glob.glob("/repo/tests/data/APK/*.dex"), key=os.path.getsize)
-    files = files[:2] if quick else files
+    from .corpus import shipped_dex
+    files = shipped_dex(quick)
     n_ship = n_out = 0
     for f in files:
         d, dx = analyse(dex, open(f, "rb").read())
-        for ma in dx.get_methods():
+        mas = list(dx.get_methods())
+        if quick and len(mas) > 1500:
+            mas = rnd.sample(mas, 1500)
+        for ma in mas:
             if ma.is_external() or ma.get_method().get_code() is None:
                 continue
             meth = ma.get_method()
             rawc = bytes(meth.get_code().get_bc().get_insn())
             units = list(struct.unpack("<%dH" % (len(rawc) // 2), rawc[:len(rawc) // 2 * 2]))
-            if len(units) > 400 or (quick and n_ship >= 250):
+            if len(units) > 400 or (quick and n_ship >= 400):
                 continue
             am = abstract_from_units(units)
             if am is None:
